@@ -259,6 +259,33 @@ func (ch *Chaos) apply(a faultAction) {
 			defer ch.wg.Done()
 			_, _ = nd.ML().Join(targets)
 		}()
+	case "rejoin":
+		// a node that left gracefully comes back under the same name and address
+		cn := ch.Nodes[a.A]
+		if !cn.Left {
+			return
+		}
+		cn.Old = append(cn.Old, cn.Node)
+		cn.Restarts++
+		cn.MetaGen = 0
+		nd, err := ch.C.Add(ch.spec(cn))
+		if err != nil {
+			ch.C.sink.add(cn.Name, "harness/rejoin", "rejoin failed: %v", err)
+			return
+		}
+		cn.Node = nd
+		cn.Left = false
+		var targets []string
+		for _, o := range ch.Nodes {
+			if o != cn && o.Live() {
+				targets = append(targets, o.Node.EP.Addr)
+			}
+		}
+		ch.wg.Add(1)
+		go func() {
+			defer ch.wg.Done()
+			_, _ = nd.ML().Join(targets)
+		}()
 	case "leave":
 		cn := ch.Nodes[a.A]
 		if !cn.Live() {
